@@ -109,6 +109,23 @@ func (e *NilEnv) at(v ssa.Value, b *ssa.BasicBlock, depth int) Nilness {
 		if isErrCtor(x) {
 			return NonNil
 		}
+		// ctx.Err() re-evaluated under a dominating `ctx.Err() != nil` on the same context: context errors are sticky
+		if x.Call.IsInvoke() && x.Call.Method.Name() == "Err" && typeIs(x.Call.Value.Type(), "context", "Context") && b != nil {
+			for _, g := range guardsOf(b) {
+				g = g.norm()
+				bo, ok := g.Cond.(*ssa.BinOp)
+				if !ok || !isNilConst(bo.Y) {
+					continue
+				}
+				c2, ok := bo.X.(*ssa.Call)
+				if !ok || !c2.Call.IsInvoke() || c2.Call.Method.Name() != "Err" || c2.Call.Value != x.Call.Value {
+					continue
+				}
+				if (bo.Op == token.NEQ && g.Pol) || (bo.Op == token.EQL && !g.Pol) {
+					return NonNil
+				}
+			}
+		}
 	case *ssa.ChangeInterface:
 		return e.at(x.X, b, depth+1)
 	case *ssa.ChangeType:
@@ -129,6 +146,11 @@ func (e *NilEnv) at(v ssa.Value, b *ssa.BasicBlock, depth int) Nilness {
 			var pb *ssa.BasicBlock
 			if i < len(x.Block().Preds) {
 				pb = x.Block().Preds[i]
+			}
+			// loop-header phi observed after the loop: the value that flows in from before the loop is
+			// irrelevant when the loop condition is constant-true on entry (the body runs at least once)
+			if pb != nil && b != nil && b != x.Block() && !x.Block().Dominates(pb) && firstIterationCertain(x.Block()) && exitsLoopOnly(x.Block(), b) {
+				continue
 			}
 			n := e.at(ed, pb, depth+2)
 			// the edge pb -> phi block may itself carry a fact (pb ends in If on ed)
@@ -196,4 +218,31 @@ func nilFactFromGuard(g Guard, v ssa.Value) Nilness {
 func isErrorType(t types.Type) bool {
 	n, ok := t.(*types.Named)
 	return ok && n.Obj().Pkg() == nil && n.Obj().Name() == "error"
+}
+
+// firstIterationCertain: block h ends in `if i < N` where i is a loop counter with constant init c0, N constant, c0 < N.
+func firstIterationCertain(h *ssa.BasicBlock) bool {
+	if len(h.Instrs) == 0 {
+		return false
+	}
+	iff, ok := h.Instrs[len(h.Instrs)-1].(*ssa.If)
+	if !ok {
+		return false
+	}
+	bo, ok := iff.Cond.(*ssa.BinOp)
+	if !ok || bo.Op != token.LSS {
+		return false
+	}
+	init, _, okc := loopCounter(bo.X)
+	n, okn := constInt(bo.Y)
+	return okc && okn && init < n
+}
+
+// exitsLoopOnly: block b is reached from header h only through h's false (exit) edge.
+func exitsLoopOnly(h, b *ssa.BasicBlock) bool {
+	if len(h.Succs) != 2 {
+		return false
+	}
+	exit := h.Succs[1]
+	return exit == b || exit.Dominates(b)
 }
